@@ -56,6 +56,9 @@ var readers = []readerSpec{
 	{"mix", []int{1440}}, // service/tcp.go: wait-for-payload Read, then io.Copy
 	{"mix", []int{1}},
 	{"mix", []int{65551}},
+	{"rcap", []int{1}}, // windows of a larger buffer (len < cap)
+	{"rcap", []int{17}},
+	{"rcap", []int{1440}},
 }
 
 var writerModes = []string{"w", "rf", "rfe", "mix"}
